@@ -1,5 +1,5 @@
 """Which engine parts decide which property."""
-from .engines import deque, codec, stream, pipe, readn
+from .engines import deque, codec, stream, pipe, readn, tlv
 
 # part name -> (run(res, work, tier, seed), replay(rep, work))
 PARTS = {
@@ -11,6 +11,7 @@ PARTS = {
     "codec.footprint": (codec.run_footprint, codec.replay_footprint),
     "pipe.random": (pipe.run_random, pipe.replay),
     "readn.main": (readn.run_readn, readn.replay),
+    "tlv.main": (tlv.run_tlv, tlv.replay),
 }
 
 # property -> parts whose violations (filtered by property id) decide it
@@ -23,6 +24,8 @@ PROPERTY_PARTS = {
     "C09": ["codec.small", "codec.prod", "codec.footprint"],
     "C08": ["stream.main"],
     "C17": ["readn.main"],
+    "C11": ["tlv.main"],
+    "C12": ["tlv.main"],
     "C03": ["pipe.random"],
     "C04": ["pipe.random"],
     "C05": ["pipe.random", "codec.small", "codec.prod"],
